@@ -59,7 +59,7 @@ var (
 
 // load reads the frozen grammar table (the same one Grammar.tla was generated from).
 func load() {
-	b, err := os.ReadFile(core.Root + "/specs/grammar.json")
+	b, err := os.ReadFile(core.SpecsDir + "/grammar.json")
 	if err != nil {
 		panic(err)
 	}
